@@ -65,13 +65,20 @@ def strat_member(draw, tier):
         shape = (draw(st.integers(1, m)), draw(st.sampled_from([1, 3, 5, 7])))
     d = draw(gen.state_s(space, shape=shape, floor_weight=0, depth=1))
     d = {'grid': [list(r) for r in d['grid']], 'agent': list(d['agent'])}
+    if draw(st.integers(0, 5)) == 0:
+        # a large member (positions past 127 / 255) tiled from the small one
+        shape = draw(gen.big_shape_s(kind))
+        d = gen.grow(d, *shape)
+        d['agent'][0], d['agent'][1] = draw(st.sampled_from([0, shape[0] - 1, shape[0] // 2])), draw(st.sampled_from([0, shape[1] - 1, shape[1] // 2]))
     # by construction: make sure the extremes occur (highest type, locked door, highest colour, corners)
     ex = reps.all_objects(space, kind)
     k = draw(st.integers(0, 3))
     if k:
-        cells = [(y, x) for y in range(shape[0]) for x in range(shape[1])]
-        picks = draw(st.lists(st.sampled_from(ex), min_size=1, max_size=min(len(cells), 6)))
-        for (y, x), o in zip(draw(st.permutations(cells)), picks + [ex[-1], ex[len(ex) // 2]]):
+        ncells = shape[0] * shape[1]
+        picks = draw(st.lists(st.sampled_from(ex), min_size=1, max_size=min(ncells, 6)))
+        n = min(ncells, len(picks) + 2)
+        where = draw(st.lists(st.tuples(st.integers(0, shape[0] - 1), st.integers(0, shape[1] - 1)), min_size=n, max_size=n, unique=True))
+        for (y, x), o in zip(where, picks + [ex[-1], ex[len(ex) // 2]]):
             d['grid'][y][x] = o
     if draw(st.booleans()):
         held_pool = [o for o in ex if o != 'H']
@@ -112,7 +119,9 @@ def oracle_member(case, ctx):
         cl.append('nonsquare')
     if shape[1] > shape[0] and d['agent'][1] >= shape[0]:
         cl.append('agent_x>=height')
-    ctx.ev.case(case, nt=len(cl) > 1, classes=cl)
+    if max(shape) >= 127:
+        cl.append('long_grid')
+    ctx.ev.case(case, nt=len(cl) > 1, classes=cl, sample=({'kind': kind, 'space': space, 'member': {'shape': list(shape), 'agent': d['agent'], 'top_rows': d['grid'][:2]}} if max(shape) > 12 else None))
 
 
 # ------------------------------------------------------------------ (b) every object of a space in the item channel and in a cell
@@ -253,8 +262,8 @@ def oracle_hist(case, ctx):
 
 CHECKS = [
     Check('members', oracle_member, strategy=strat_member, examples={'quick': 500, 'thorough': 2000}, shards={'quick': 4, 'thorough': 16},
-          rule='type subset x colour subset x shape (states >= 2x2, views odd width) x member built to contain the extremes x 3 representations: key by key inside the declared space, own bounds/dtype check, gym Box and Dict',
-          required=['max_type', 'locked_door', 'max_colour', 'agent_corner', 'nonsquare', 'agent_x>=height', 'state', 'obs']),
+          rule='type subset x colour subset x shape (states >= 2x2, views odd width; one case in six tiled to a long grid with a dimension of 40..300, around the 127/128 and 255/256 boundaries) x member built to contain the extremes x 3 representations: key by key inside the declared space, own bounds/dtype check, gym Box and Dict',
+          required=['max_type', 'locked_door', 'max_colour', 'agent_corner', 'nonsquare', 'agent_x>=height', 'state', 'obs', 'long_grid']),
     Check('all_objects', oracle_objects, enumerate=enum_objects, shards={'quick': 16, 'thorough': 16}, exhaustive=True,
           rule='all 2^9-1 type subsets x 4 colour subsets (16 thorough): every object of the space as a grid cell and as the held item, for states and observations x 3 representations'),
     Check('trajectories', oracle_hist, strategy=strat_hist, examples={'quick': 4, 'thorough': 12}, shards={'quick': 4, 'thorough': 16},
